@@ -420,6 +420,57 @@ static ul f2(ul x, ul y) { return x * 31 + y; }
 """
 
 
+def parse_sexp(text):
+    """the harness's tree dump -> nested lists"""
+    toks = text.replace("(", " ( ").replace(")", " ) ").split()
+    pos = 0
+
+    def rd():
+        nonlocal pos
+        t = toks[pos]
+        pos += 1
+        if t == "(":
+            l = []
+            while toks[pos] != ")":
+                l.append(rd())
+            pos += 1
+            return l
+        return t
+    return rd()
+
+
+def render_tree(t):
+    """the parsed tree as fully parenthesised C: what OCCA's grouping means to a C++ compiler"""
+    k = t[0]
+    if k == "id":
+        return unpct(t[1])
+    if k == "prim":
+        return unpct(t[1])
+    if k == "chr":
+        return ("" if t[1] == "-" else t[1]) + "'" + unpct(t[2]).replace("'", "\\'") + "'"
+    if k == "par":
+        return "(" + render_tree(t[1]) + ")"
+    if k == "bin":
+        if unpct(t[1]) in (".", "->") and t[3][0] == "id":
+            return "((" + render_tree(t[2]) + ")" + unpct(t[1]) + unpct(t[3][1]) + ")"
+        return "((" + render_tree(t[2]) + ")" + unpct(t[1]) + "(" + render_tree(t[3]) + "))"
+    if k == "lu":
+        return "(" + unpct(t[1]) + "(" + render_tree(t[2]) + "))"
+    if k == "ru":
+        return "((" + render_tree(t[2]) + ")" + unpct(t[1]) + ")"
+    if k == "tern":
+        return "((" + render_tree(t[1]) + ")?(" + render_tree(t[2]) + "):(" + render_tree(t[3]) + "))"
+    if k == "call":
+        return "(" + render_tree(t[1]) + ")(" + ", ".join(render_tree(a) for a in t[2:] if a != ["empty"]) + ")"
+    if k == "sub":
+        return "(" + render_tree(t[1]) + ")[" + render_tree(t[2]) + "]"
+    if k == "cast":
+        return "((" + t[1].replace("*", " *") + ")(" + render_tree(t[2]) + "))"
+    if k == "sizeof":
+        return "sizeof(" + render_tree(t[1]) + ")"
+    raise ValueError("unrenderable node " + k)
+
+
 def semantic_oracle(ck, hb, n_expr):
     r = ck.rng
     gens = [SemGen(r).make() for _ in range(n_expr)]
@@ -427,11 +478,15 @@ def semantic_oracle(ck, hb, n_expr):
     pairs = []
     rejected = 0
     for toks, obs in zip(gens, impl):
-        m = re.match(r"ok T=.* P=(\S+) R=", obs[-1] if obs else "")
+        m = re.match(r"ok T=(.*) P=(\S+) R=", obs[-1] if obs else "")
         if not m:
             rejected += 1
             continue
-        pairs.append((" ".join(toks), unpct(m.group(1))))
+        try:
+            tree = render_tree(parse_sexp(m.group(1)))
+        except Exception:
+            tree = " ".join(toks)      # a node kind outside the evaluable grammar: compare the original with itself
+        pairs.append((" ".join(toks), unpct(m.group(2)), tree))
     ck.cov["counters"]["semantic_expressions"] = len(pairs)
     ck.cov["counters"]["semantic_rejected_by_parser"] = rejected
     if not pairs:
@@ -441,17 +496,20 @@ def semantic_oracle(ck, hb, n_expr):
 
     def source(active):
         L = [SEM_PRELUDE]
-        for i, (o, p) in enumerate(pairs):
+        for i, (o, p, g) in enumerate(pairs):
             if i in active:
                 L.append("static ul o_%d(ARGS) { return (ul) (%s); }" % (i, o.replace("\n", " ")))
                 L.append("static ul p_%d(ARGS) { return (ul) (%s); }" % (i, p.replace("\n", " ")))
+                L.append("static ul g_%d(ARGS) { return (ul) (%s); }" % (i, g.replace("\n", " ")))
             else:
+                L.append("")
                 L.append("")
                 L.append("")
         L.append("#include <cstdio>")
         L.append("typedef ul (*fn)(ARGS);")
         L.append("static fn O[] = {%s};" % ", ".join("o_%d" % i if i in active else "0" for i in range(len(pairs))))
         L.append("static fn P[] = {%s};" % ", ".join("p_%d" % i if i in active else "0" for i in range(len(pairs))))
+        L.append("static fn G[] = {%s};" % ", ".join("g_%d" % i if i in active else "0" for i in range(len(pairs))))
         L.append(r"""
 int main() {
   ul seed = %dUL;
@@ -460,11 +518,13 @@ int main() {
     for (int it = 0; it < 12; ++it) {
       ul v[16];
       for (int j = 0; j < 16; ++j) { seed = seed * 6364136223846793005UL + 1442695040888963407UL; v[j] = (it < 3) ? (seed >> 60) : (it < 6 ? (ul) (long) (int) (seed >> 33) : seed); }
-      ul arr1[4] = {v[4], v[5], v[6], v[7]}, arr2[4] = {v[4], v[5], v[6], v[7]};
-      S s = {v[8], v[9]}, q1 = {v[10], v[11]}, q2 = {v[10], v[11]};
+      ul arr1[4] = {v[4], v[5], v[6], v[7]}, arr2[4] = {v[4], v[5], v[6], v[7]}, arr3[4] = {v[4], v[5], v[6], v[7]};
+      S s = {v[8], v[9]}, q1 = {v[10], v[11]}, q2 = {v[10], v[11]}, q3 = {v[10], v[11]};
       ul x = O[k](v[0], v[1], v[2], v[3], arr1, s, &q1, v[12], v[13], v[14], v[15], v[1], v[2]);
       ul y = P[k](v[0], v[1], v[2], v[3], arr2, s, &q2, v[12], v[13], v[14], v[15], v[1], v[2]);
+      ul z = G[k](v[0], v[1], v[2], v[3], arr3, s, &q3, v[12], v[13], v[14], v[15], v[1], v[2]);
       if (x != y) { std::printf("DIFF %%d\n", k); break; }
+      if (x != z) { std::printf("TREE %%d\n", k); break; }
     }
   }
   std::printf("DONE\n");
@@ -475,7 +535,7 @@ int main() {
     active = set(range(len(pairs)))
     src = os.path.join(d, "sem.cpp")
     nprelude = SEM_PRELUDE.count("\n") + 1
-    bad_orig, bad_print = set(), set()
+    bad_orig, bad_print, bad_tree = set(), set(), set()
     for _ in range(4):
         open(src, "w").write(source(active))
         rc, so, se = sh(["g++", "-std=c++17", "-fsyntax-only", "-w", "-fmax-errors=0", src], timeout=600)
@@ -484,19 +544,22 @@ int main() {
         hit = False
         for m in re.finditer(r"sem\.cpp:(\d+):\d+: error", se):
             ln = int(m.group(1)) - nprelude
-            idx, which = divmod(ln, 2)
+            idx, which = divmod(ln, 3)
             if 0 <= idx < len(pairs) and idx in active:
                 hit = True
-                (bad_print if which else bad_orig).add(idx)
+                (bad_orig if which == 0 else bad_print if which == 1 else bad_tree).add(idx)
         if not hit:
             ck.problems.append(("tie", "semantic oracle: g++ failed for another reason: " + se[-400:]))
             return
-        active -= bad_orig | bad_print
+        active -= bad_orig | bad_print | bad_tree
     # an original that does not compile is a generator slip (not C); a printed text that does not
     # compile although its original does is a violation
     for i in sorted(bad_print - bad_orig)[:3]:
-        ck.oracle_violation("printed expression is not valid C++ although the original is: original `%s` printed `%s`" % pairs[i],
+        ck.oracle_violation("printed expression is not valid C++ although the original is: original `%s` printed `%s`" % pairs[i][:2],
                             "E " + pairs[i][0], name="sem")
+    for i in sorted(bad_tree - bad_orig - bad_print)[:3]:
+        ck.oracle_violation("the parsed tree is not a C++ expression although the original is (OCCA grouped it differently): "
+                            "original `%s` tree `%s`" % (pairs[i][0], pairs[i][2]), "E " + pairs[i][0], name="sem")
     ck.cov["counters"]["semantic_generator_invalid"] = len(bad_orig)
     exe = os.path.join(d, "sem")
     rc, so, se = sh(["g++", "-std=c++17", "-O0", "-w", src, "-o", exe], timeout=900)
@@ -509,8 +572,13 @@ int main() {
         return
     diffs = [int(x) for x in re.findall(r"DIFF (\d+)", so)]
     for i in diffs[:3]:
-        ck.oracle_violation("printed expression evaluates differently from the original (g++): original `%s` printed `%s`" % pairs[i],
+        ck.oracle_violation("printed expression evaluates differently from the original (g++): original `%s` printed `%s`" % pairs[i][:2],
                             "E " + pairs[i][0], name="sem")
+    trees = [int(x) for x in re.findall(r"TREE (\d+)", so)]
+    for i in trees[:3]:
+        ck.oracle_violation("the parsed tree, fully parenthesised, evaluates differently from the original (g++): OCCA's grouping "
+                            "is not C's: original `%s` tree `%s`" % (pairs[i][0], pairs[i][2]), "E " + pairs[i][0], name="sem")
+    ck.cov["counters"]["semantic_tree_differences"] = len(trees)
     ck.cov["counters"]["semantic_compiled_pairs"] = len(active)
     ck.cov["counters"]["semantic_value_differences"] = len(diffs)
     ck.cov["evaluations"] += len(active)
@@ -602,15 +670,15 @@ def main(argv):
             run_programs(ck, hb, [unpct(o[2:]) for o in progs])
         ck.finish(META["level_text"])
     quick = ck.tier == "quick"
-    n = 300 if quick else 40000
+    n = 300 if quick else 6000
     hs = CORPUS + [gen_history(ck.rng) for _ in range(n)]
     ck.correspond(hb, db, hs, label="expr", ubsan_is_violation=UBRE, timeout=600, env=ENV,
                   nontrivial=lambda h, obs: any(o.startswith("ok ") for o in obs))
     shape_probe(ck, db, hs)
     if hb:
-        progs = S_CORPUS + KNOWN_PROGRAMS + [gen_program(ck.rng) for _ in range(200 if quick else 20000)]
+        progs = S_CORPUS + KNOWN_PROGRAMS + [gen_program(ck.rng) for _ in range(200 if quick else 3000)]
         run_programs(ck, hb, progs)
-        semantic_oracle(ck, hb, 300 if quick else 6000)
+        semantic_oracle(ck, hb, 300 if quick else 3000)
     ck.finish(META["level_text"])
 
 
